@@ -32,7 +32,7 @@ SYMS = ['dense', 'Z2', 'Z3', 'U1', 'Z2xU1', 'U1xU1', 'U1xU1xZ2']
 
 def cases(tier, seed):
     out = []
-    reps = 5 if tier == 'quick' else 14
+    reps = 5 if tier == 'quick' else 60
     for kind in ('svd', 'qr', 'eigh'):
         fac = {'sym': SYMS, 'dtype': ['real', 'complex'], 'lazy': ['plain', 'lazy', 'consumed'], 'fused': ['none', 'hard', 'meta'],
                'sU': [1, -1], 'rank': [2, 3, 4]}
